@@ -114,13 +114,13 @@ def build_harness():
 
 # ------------------------------------------------------------------------------------------ TLC
 
-def tlc_mc(module, env, workers=8, timeout=1800, emit=True, invariants=None):
+def tlc_mc(module, env, workers=8, timeout=1800, emit=True, invariants=None, liveness=False):
     """Model-checks spec/<module>.tla with its .cfg under `env`; output depends only on the spec,
     so it is cached by the hash of spec + env."""
     envs = dict(env)
     if emit:
         envs['V_EMIT'] = '1'
-    key = hashlib.sha256((spec_hash() + module + json.dumps(envs, sort_keys=True) + json.dumps(invariants) + 'v2-dumptrace').encode()).hexdigest()[:20]
+    key = hashlib.sha256((spec_hash() + module + json.dumps(envs, sort_keys=True) + json.dumps(invariants) + 'v2-dumptrace' + ('live' if liveness else '')).encode()).hexdigest()[:20]
     d = os.path.join(BUILD, 'cache', 'mc', key)
     statf = os.path.join(d, 'stats.json')
     if os.path.exists(statf):
@@ -132,7 +132,26 @@ def tlc_mc(module, env, workers=8, timeout=1800, emit=True, invariants=None):
     out = os.path.join(d, 'out.txt')
     t0 = time.time()
     cfgpath = os.path.join(SPEC, module + '.cfg')
-    if invariants is not None:
+    if liveness:
+        # same constants; the fair specification and the termination property, no VIEW (liveness
+        # checking needs the real state graph) and no state constraint
+        keep = []
+        skipping = False
+        for ln in open(cfgpath).read().splitlines():
+            if ln.startswith('INVARIANTS') or ln.startswith('INVARIANT '):
+                skipping = True
+                continue
+            if skipping and ln.startswith('  '):
+                continue
+            skipping = False
+            if ln.startswith(('PROPERTY', 'ACTION_CONSTRAINT', 'VIEW', 'SPECIFICATION')):
+                continue
+            keep.append(ln)
+        keep += ['SPECIFICATION FairSpec', 'PROPERTY Terminates']
+        cfgpath = os.path.join(d, module + '_live.cfg')
+        open(cfgpath, 'w').write('\n'.join(keep) + '\n')
+        emit = False
+    elif invariants is not None:
         # a witness run: same constants, only the listed invariants
         lines = open(cfgpath).read().splitlines()
         keep = []
@@ -161,6 +180,8 @@ def tlc_mc(module, env, workers=8, timeout=1800, emit=True, invariants=None):
     shutil.rmtree(meta, ignore_errors=True)
     m = re.search(r'(\d+) states generated, (\d+) distinct states found', txt)
     viol = re.findall(r'Error: Invariant (\S+) is violated', txt) + re.findall(r'Error: Action property (\S+) is violated', txt)
+    if 'Temporal properties were violated' in txt:
+        viol.append('Terminates')
     ok = 'Model checking completed. No error has been found.' in txt
     st = {'module': module, 'env': envs, 'generated': int(m.group(1)) if m else 0, 'distinct': int(m.group(2)) if m else 0,
           'ok': ok, 'violated': viol, 'wall_s': round(time.time() - t0, 1), 'dir': d, 'rc': p.returncode}
@@ -462,6 +483,16 @@ def lattice_engine(planner, tier, seed, api=False):
         merge_features(res.setdefault('features', {}), trace_features(traces, limit=150000))
         for t in traces:
             os.remove(t)
+    # C06 liveness: under weak fairness of the loop actions every call returns (small configuration,
+    # no state constraint, the real state graph)
+    if not api:
+        live_env = q(V_WORLDS='few', V_PROBLEMS='one', V_BIAS='0', V_MAXT=2, V_MAXCALLS=2, V_BUILD=2)
+        st = tlc_mc(conf['module'], live_env, timeout=900, liveness=True, workers=4)
+        if st['violated'] or not st['ok']:
+            raise ToolError(f"{conf['module']}: liveness property Terminates fails on the model: {st['dir']}/out.txt")
+        res['liveness'] = {'property': 'Terminates == []<>(pc = "idle") under FairSpec', 'states': st['distinct'], 'ok': True}
+        res['states'] += st['distinct']
+        res['transitions'] += st['generated']
     # Witness configurations: each must be violated; the input history of TLC's counterexample is
     # then executed on the real planner and validated like any other history (directed coverage of
     # the interesting branches, and a regression test for every deviation that was repaired).
@@ -931,7 +962,7 @@ def write_evidence(pid, tier, seed, spec, results, counts, nviol, wall, known_hi
                 'reached, counted by the harness; evaluations = histories executed. TLC explores each configuration exhaustively (all worlds / problems / sample sequences / call histories within '
                 'the stated bounds); every history it emits is executed on the real planner over a lattice space and the '
                 'recorded trace is validated event by event by spec/TraceMonitor.tla',
-        'engines': [{'engine': r['engine'], 'configs': r.get('configs', []), 'witnesses': r.get('witnesses', []),
+        'engines': [{'engine': r['engine'], 'configs': r.get('configs', []), 'witnesses': r.get('witnesses', []), 'liveness': r.get('liveness'),
                      'wall_s': r.get('wall_s'), 'cached_result_for_same_tree': r.get('engine_cached', False)} for r in results],
         'labels_of_this_property_raised': counts,
         'rules_exercised_by_recorded_executions': {r['engine']: r.get('features', {}) for r in results if r.get('features')},
